@@ -131,7 +131,33 @@ func RunLB(s *sim.Sim, prop string, uniq string) *LB {
 		s.Fault(fmt.Sprintf("w:subset_fallback_%d", w.Fallback))
 	}
 	c := cluster.NewCluster(ccfg)
-	info := c.Snapshot().ClusterInfo()
+	// a quarter of the runs go through the cluster manager: lookups take their snapshot from it, host sets
+	// are replaced through it, and the cluster is re-delivered with an unchanged configuration at drawn
+	// instants (a configuration update keeps the hosts: no lookup may meet a cluster without them)
+	var cm types.ClusterManager
+	if prop == "C05" && !w.Subset && ch.Chance("params", "viamanager", 1, 4) {
+		cm = cluster.NewClusterManagerSingleton(nil, nil, nil)
+		if err := cm.AddOrUpdatePrimaryCluster(ccfg); err != nil {
+			s.Violate("C05", "harness_manager", "AddOrUpdatePrimaryCluster: %v", err)
+			return w
+		}
+		w.Stats["via_cluster_manager"]++
+		s.Fault("w:via_cluster_manager")
+	}
+	snapshot := func() types.ClusterSnapshot {
+		if cm != nil {
+			return cm.GetClusterSnapshot(context.Background(), ccfg.Name)
+		}
+		return c.Snapshot()
+	}
+	updateHosts := func(set types.HostSet) {
+		if cm != nil {
+			_ = cm.UpdateHosts(ccfg.Name, nil, func(cc types.Cluster, _ []v2.Host) { cc.UpdateHosts(set) })
+			return
+		}
+		c.UpdateHosts(set)
+	}
+	info := snapshot().ClusterInfo()
 	mkSet := func() types.HostSet {
 		n := ch.Pick("work", "nhosts", 6)
 		if w.Subset {
@@ -198,7 +224,7 @@ func RunLB(s *sim.Sim, prop string, uniq string) *LB {
 		}
 		return true
 	})
-	c.UpdateHosts(first)
+	updateHosts(first)
 	w.ops = append(w.ops, &opRec{kind: "update", inv: 0, ret: 0, gen: 0})
 
 	// maglev hashes the request: a real route with a source-address hash policy, a drawn source address per lookup
@@ -222,6 +248,7 @@ func RunLB(s *sim.Sim, prop string, uniq string) *LB {
 
 	type task func()
 	var tasks []task
+	var ctl []func()
 	// lookups
 	for t, nT := 0, 1+ch.Pick("work", "nlookupers", 3); t < nT; t++ {
 		k := 1 + ch.Pick("work", "nlookups", 4)
@@ -231,7 +258,7 @@ func RunLB(s *sim.Sim, prop string, uniq string) *LB {
 				ctx := variable.NewVariableContext(context.Background())
 				op := &opRec{kind: "lookup", setGen: -1}
 				op.inv = w.tick()
-				snap := c.Snapshot()
+				snap := snapshot()
 				var h types.Host
 				retries := 1
 				if w.Policy == "LB_REQUEST_ROUNDROBIN" || w.Policy == "LB_MAGLEV" {
@@ -278,15 +305,43 @@ func RunLB(s *sim.Sim, prop string, uniq string) *LB {
 			}
 			return true
 		})
-		tasks = append(tasks, func() {
+		upd := func() {
 			s.Yield("t:op", uint64(200+u))
 			op := &opRec{kind: "update", gen: gen}
 			op.inv = w.tick()
-			c.UpdateHosts(set)
+			updateHosts(set)
 			op.ret = w.tick()
 			w.mu.Lock()
 			w.ops = append(w.ops, op)
 			w.mu.Unlock()
+		}
+		if cm != nil {
+			ctl = append(ctl, upd) // (the control plane is one writer: its operations follow one another)
+		} else {
+			tasks = append(tasks, upd)
+		}
+	}
+	// the cluster's configuration is delivered again (unchanged): the hosts stay
+	if cm != nil {
+		for u, nU := 0, 1+ch.Pick("work", "nreconf", 2); u < nU; u++ {
+			ctl = append(ctl, func() {
+				s.Yield("t:op", uint64(400+u))
+				_ = cm.AddOrUpdatePrimaryCluster(ccfg)
+				w.mu.Lock()
+				w.Stats["cluster_redelivered"]++
+				w.mu.Unlock()
+			})
+		}
+		// one control-plane task, its operations in a drawn order
+		for i := len(ctl) - 1; i > 0; i-- {
+			j := ch.Pick("work", "ctlorder", i+1)
+			ctl[i], ctl[j] = ctl[j], ctl[i]
+		}
+		ops := ctl
+		tasks = append(tasks, func() {
+			for _, op := range ops {
+				op()
+			}
 		})
 	}
 	// health flips: one flipper per address (so that C16's lost update cannot blur this oracle)
